@@ -19,7 +19,8 @@ from harness import common
 
 GEN_MODULES = ['minimize']
 MODEL_TARGETS = ['model/M_Minimize.vo', 'model/M_MinimizeX.vo']
-PROOF_TARGETS = ['proofs/P_Minimize.vo', 'proofs/P_MinimizeWrap.vo', 'proofs/P_MinimizeScan.vo', 'proofs/P_MinimizeDeep.vo']
+PROOF_TARGETS = ['proofs/P_Minimize.vo', 'proofs/P_MinimizeWrap.vo', 'proofs/P_MinimizeScan.vo', 'proofs/P_MinimizeDeep.vo',
+                 'proofs/P_MinimizeNaN.vo', 'proofs/P_MinimizeDom.vo']
 LEVEL = 'proof'
 RULE = ('log-likelihood-ratio landscapes of real ZeroSigH0SingleDatasetTCLLHRatio instances (1..60 selected events, '
         '0..200 pure-background events, constant-array PDF ratios) with the optimum interior / at the lower / at the upper '
@@ -33,7 +34,7 @@ TRUSTED = [
     'axioms printed under the theorems at the real-number instance: ClassicalDedekindReals.sig_not_dec, sig_forall_dec, '
     'FunctionalExtensionality.functional_extensionality_dep, Classical_Prop.classic (Coq Reals / lra); the wrapper / status theorems that do not need '
     'an order are proved for every number system and are closed under the global context',
-    'translator/py2coq.py: reading of the 58 kernels of minimizer.py / parameters.py / llhratio.py (G_minimize.v)',
+    'translator/py2coq.py: reading of the 73 kernels of minimizer.py / parameters.py / llhratio.py (G_minimize.v)',
     'hand model M_Minimize.v of the control flow (loops as structural recursion on max_steps / max_repetitions), '
     'validated by this correspondence on every run',
     'extraction (ExtrOcamlBasic only) and the hand-written OCaml driver ocaml/c11/driver.ml incl. the float Num record',
@@ -370,8 +371,9 @@ def gen_bounds_init(ctx, rng, land):
     cap = 0.9 * N      # log1p(-ns/N) and log1p(ns*Xi) stay defined: the objective is a proper concave function
     kind = land['kind']
     if kind == 'flat':
-        lo = rng.choice([0.0, 0.0, round(rng.uniform(0, 2), 3)])
-        hi = lo + rng.choice([1.0, 10.0, round(rng.uniform(0.5, 20), 3)])
+        # ns stays below N: the real log Lambda is NaN for ns >= N (0 * log1p(-ns/N)), outside C11's domain
+        lo = rng.choice([0.0, 0.0, round(rng.uniform(0, 0.2), 3) * N])
+        hi = min(cap, lo + rng.choice([0.3, 0.6, round(rng.uniform(0.1, 0.7), 3)]) * N)
         where = 'flat'
     else:
         xs = argmax_1d(land, 0.0, cap)
@@ -494,7 +496,7 @@ def run_nr_case(ctx, case, lines, checks):
             res = None
     tab = table_from(impl.calls, -1.0)
     lo, hi = case['bounds'][0]
-    lines.append(' '.join(['nr', '1', hx(case['ns_tol']), str(case['max_steps']), str(case['max_reps']), hx(lo), hx(hi),
+    lines.append(' '.join(['nr', '1', '0', hx(case['ns_tol']), str(case['max_steps']), str(case['max_reps']), hx(lo), hx(hi),
                            hx(case['init'][0]), str(len(tab))] + tab_tokens(tab)))
     checks.append(('nr', case, got))
     if case.get('valid', True):
@@ -608,7 +610,7 @@ def run_scan_case(ctx, case, lines, checks):
         ctx.violation('NRNsScan2dMinimizerImpl.minimize', 'scan-grid', f'scanned {seen[:5]}.. expected {p2s[:5]}..',
                       case=dict(case), impl=seen, predicate='second parameter scanned on linspace(lo, hi, int((hi-lo)/step)+1)')
     tab = table_from(impl.calls, -1.0)
-    toks = ['scan', '2', hx(case['ns_tol']), str(case['max_steps']), str(case['max_reps'])]
+    toks = ['scan', '2', '0', hx(case['ns_tol']), str(case['max_steps']), str(case['max_reps'])]
     for b in case['bounds']:
         toks += [hx(b[0]), hx(b[1])]
     toks += [hx(v) for v in case['init']] + [str(len(p2s))] + [hx(v) for v in p2s] + [str(len(tab))] + tab_tokens(tab)
@@ -757,6 +759,221 @@ def gen_scan_case(ctx, rng, best=None):
     return case
 
 
+
+# ------------------------------------------------------------------ independent convergence criteria for the oracles
+def raw_converged(case, st):
+    """the implementation's own status record read directly (not through has_converged): None when unknown"""
+    name = case['impl']
+    try:
+        if name == 'lbfgs':
+            return int(st['warnflag']) == 0
+        if name.startswith('scipy:') or name == 'iminuit':
+            return bool(st['success'])
+    except Exception:
+        return None
+    return None
+
+
+def oracle_convergence(ctx, site, case, x, st, got):
+    """a returned result of L-BFGS-B / scipy / iminuit must (a) carry a raw status that says success and (b) be an
+    optimum of the recorded concave objective by an independent criterion: the objective deficit w.r.t. the
+    bisection maximiser on [lo, hi] is small"""
+    if case['impl'] == 'scripted' or case.get('objective') is not None or len(case['init']) != 1:
+        return
+    rc = {k: case[k] for k in case if k != 'valid'}
+    raw = raw_converged(case, st)
+    if raw is False:
+        ctx.violation(site, 'returned-with-failure-status', 'a result was returned although the raw status record '
+                      'of the implementation says it did not succeed', case=rc, impl=got,
+                      predicate='status.success / warnflag == 0 for every returned result')
+    lo, hi = case['bounds'][0]
+    ns = float(x[0])
+    if not (lo <= ns <= hi):
+        return
+    xs = argmax_1d(case, lo, hi)
+    deficit = ll_exact(case, xs) - ll_exact(case, ns)
+    scale = abs(ll_exact(case, xs)) + 1.0
+    ctx.stats['oracle-max-deficit-1e9'] = max(ctx.stats.get('oracle-max-deficit-1e9', 0), int(1e9 * deficit / scale))
+    if not deficit <= 1e-3 * scale:
+        ctx.violation(site, 'returned-point-not-optimal', f'log Lambda({ns!r}) is {deficit!r} below the maximum at {xs!r}',
+                      case=rc, impl=got, predicate='logL(argmax) - logL(x_ret) <= 1e-3 (1 + |logL(argmax)|)')
+
+
+# ------------------------------------------------------------------ generic LLHRatio.maximize (non-NR implementations)
+def run_gen_case(ctx, case, lines, checks):
+    """the real ZeroSigH0SingleDatasetTCLLHRatio.maximize -> LLHRatio.maximize (generic path) around L-BFGS-B /
+    scipy / iminuit; the wrapper + negation model (maximize_gen) is run on the recorded oracle"""
+    E = env()
+    impl = make_impl(case)
+    impl.reset()
+    llh = build_llh(case, impl, max_reps=case['max_reps'])
+    rss = E['RSSStub'](case.get('seed', 1))
+    reevals = []
+    real_eval = llh.evaluate
+
+    def rec_eval(*a, **k):
+        out = real_eval(*a, **k)
+        if impl.active == 0:
+            fv = k.get('fitparam_values', a[0] if a else None)
+            reevals.append(('R', np.array(fv, dtype=np.float64).copy(), -float(out[0])))
+        return out
+    llh.evaluate = rec_eval
+    with warnings.catch_warnings(), np.errstate(all='ignore'):
+        warnings.simplefilter('ignore')
+        try:
+            (llmax, x, st) = llh.maximize(rss)
+            got = ['Ok', hx(llmax), [hx(v) for v in x], 0]
+            res = (llmax, x, st)
+        except Exception as ex:
+            got = ['Err', exc_kind(ex)]
+            res = None
+    line = wrap_line(case, impl.impl_calls, impl.impl_results, rss.draws, reevals)
+    lines.append('gen' + line[4:])
+    checks.append(('wrap', case, got))
+    ctx.count('gen:' + case['impl'])
+    site = f'LLHRatio.maximize[{case["impl"]}]'
+    last = impl.impl_results[-1] if impl.impl_results else None
+    if res is not None:
+        ctx.count('gen-returned')
+        if last is None or last[0] != 'R' or not last[3]:
+            ctx.violation(site, 'silent-non-convergence', 'a result was returned although the last run did not converge',
+                          case=dict(case), impl=got, predicate='not converged => exception')
+        check_result(ctx, site, case, (llmax, x, None), status_ok=True)
+        oracle_convergence(ctx, site, case, x, st, got)
+    else:
+        ctx.count('gen-raised:' + got[1])
+
+
+# ------------------------------------------------------------------ parameter layouts with ns not first
+def run_layout_case(ctx, case, lines, checks):
+    """gamma mapped BEFORE ns: NR1dNsMinimizerImpl varies x[0] while the closure differentiates w.r.t. ns, so the
+    NR path of TCLLHRatio.maximize must raise (fix dd4ce02); a returned result must at least be stationary in ns"""
+    E = env()
+    scan = case['impl'] == 'nrscan2d'
+    impl = (E['RecScan'](cfg=E['cfg'], p2_scan_step=case['p2_step']) if scan else E['RecNR'](cfg=E['cfg']))
+    impl.reset()
+    src = E['Src'](name='s', ra=1.0, dec=0.2)
+    pmm = E['PMM'](models=[src])
+    pmm.map_param(mk_param('gamma', case['init'][0], case['bounds'][0][0], case['bounds'][0][1]), models=[src])
+    pmm.map_param(mk_param('ns', case['init'][1], case['bounds'][1][0], case['bounds'][1][1]))
+    shg = E['SHG']()
+    tdm = E['TDM']()
+    tdm.initialize_trial(shg_mgr=shg, pmm=pmm, events=E['DFRA'](np.zeros((len(case['R0']),), dtype=[('x', np.float64)])),
+                         n_events=case['N'])
+    pr = E['ArrPDFRatio'](case['R0'], case['R1'], 'gamma', cfg=E['cfg'])
+    llh = E['LLH'](cfg=E['cfg'], pmm=pmm, minimizer=E['mz'].Minimizer(impl), shg_mgr=shg, tdm=tdm, pdfratio=pr)
+    with warnings.catch_warnings(), np.errstate(all='ignore'):
+        warnings.simplefilter('ignore')
+        try:
+            (llmax, x, st) = llh.maximize(E['RSS'](1))
+            got = ['Ok', hx(llmax), [hx(v) for v in x]]
+            g, ns = float(x[0]), float(x[1])
+            sub = dict(case, bounds=[case['bounds'][1]], init=[case['init'][1]])
+            slope = grad_exact(sub, ns, g)
+            lo, hi = case['bounds'][1]
+            if not (abs(slope) <= 0.2 or (ns == lo and slope <= 0) or (ns == hi and slope >= 0)):
+                ctx.violation('LLHRatio.maximize[NR, ns not first]', 'not-stationary-in-ns',
+                              f'returned ns={ns!r} gamma={g!r} with d logL/d ns = {slope!r}', case=dict(case), impl=got,
+                              predicate='ns not first: raise, or return a point stationary in ns')
+        except Exception as ex:
+            got = ['Err', exc_kind(ex)]
+    toks = ['scan' if scan else 'nr', '2', '1', hx(1e-3), '100', '100']
+    for b in case['bounds']:
+        toks += [hx(b[0]), hx(b[1])]
+    toks += [hx(v) for v in case['init']]
+    if scan:
+        toks += ['1', hx(case['bounds'][1][0])]
+    toks += ['0']
+    lines.append(' '.join(toks))
+    checks.append(('nr', case, got))
+    ctx.count('layout-ns-second:' + got[0] + (':' + got[1] if got[0] == 'Err' else ''))
+
+
+# ------------------------------------------------------------------ NR + scan on a raw objective with a NaN value
+def run_scanraw_case(ctx, case, lines, checks):
+    """Minimizer.minimize(NRNsScan2dMinimizerImpl) on f(ns, g) = (ns - c)^2 + g with f = NaN (finite derivatives)
+    at the scan values listed in `nan_at` (fix 74450e7): the NaN step must not be reported"""
+    E = env()
+    impl = E['RecScan'](cfg=E['cfg'], p2_scan_step=case['p2_step'], ns_tol=case['ns_tol'], max_steps=case['max_steps'])
+    impl.reset()
+    c = case['center']
+
+    def func(x, *a):
+        ns, g = float(x[0]), float(x[1])
+        v = (ns - c) * (ns - c) + g
+        if g in case['nan_at']:
+            v = float('nan')
+        return (np.float64(v), np.float64(2.0 * (ns - c)), np.float64(2.0))
+    ps = E['ParameterSet']([mk_param('ns', case['init'][0], *case['bounds'][0]), mk_param('g', case['init'][1], *case['bounds'][1])])
+    (p2lo, p2hi) = case['bounds'][1]
+    p2s = [float(v) for v in np.linspace(p2lo, p2hi, int((p2hi - p2lo) / case['p2_step']) + 1)]
+    with warnings.catch_warnings(), np.errstate(all='ignore'):
+        warnings.simplefilter('ignore')
+        try:
+            (x, fmin, st) = E['mz'].Minimizer(impl).minimize(E['RSS'](1), ps, func)
+            tr = [hx(cc[0][0]) for cc in impl.calls if float(cc[0][1]) == float(x[1])]
+            got = ['Ok', hx(-fmin), [hx(v) for v in x], int(st['warnflag']), int(st['niter']), hx(st['last_nr_step']), tr, '0']
+            res = (x, float(fmin), int(st['warnflag']))
+        except Exception as ex:
+            got = ['Err', exc_kind(ex)]
+            res = None
+    tab = table_from(impl.calls, -1.0)
+    toks = ['scan', '2', '0', hx(case['ns_tol']), str(case['max_steps']), '100']
+    for b in case['bounds']:
+        toks += [hx(b[0]), hx(b[1])]
+    toks += [hx(v) for v in case['init']] + [str(len(p2s))] + [hx(v) for v in p2s] + [str(len(tab))] + tab_tokens(tab)
+    lines.append(' '.join(toks))
+    checks.append(('scan', case, got))
+    site = 'Minimizer.minimize[NRNsScan2dMinimizerImpl]'
+    finite = [g for g in p2s if g not in case['nan_at']]
+    ctx.count('scanraw:' + ('all-nan' if not finite else 'some-nan' if len(finite) < len(p2s) else 'no-nan'))
+    if res is not None:
+        if math.isnan(res[1]):
+            ctx.violation(site, 'nan-value-reported-as-converged', f'fmin = NaN returned with warnflag {res[2]}',
+                          case=dict(case), impl=got, predicate='a NaN function value is never a converged result')
+        elif finite:
+            lo, hi = case['bounds'][0]
+            best = min((min(max(c, lo), hi) - c) ** 2 + g for g in finite)
+            if not abs(res[1] - best) <= 1e-6 * (1 + abs(best)):
+                ctx.violation(site, 'not-best-of-scan', f'fmin {res[1]!r}, best finite scan step has {best!r}',
+                              case=dict(case), impl=got, predicate='fmin = min over the finite scan steps')
+    elif finite and case['max_steps'] >= 50:
+        ctx.violation(site, 'raises-although-finite-steps-exist', 'the scan raised although finite scan steps exist',
+                      case=dict(case), impl=got, predicate='a NaN scan step does not hide the finite ones')
+
+
+# ------------------------------------------------------------------ iminuit helper functor (stateful cache)
+def functor_probes(ctx):
+    """FuncWithGradsFunctor caches (x, f, grads): the values it returns must be the function's at the requested x,
+    also for x differing from the cached one by one ulp / 1e-9 and after interleaved get_f / get_grads calls"""
+    try:
+        from skyllh.core.minimizers.iminuit import FuncWithGradsFunctor
+    except Exception:
+        ctx.notes.append('iminuit functor not importable: probe skipped')
+        return
+    E = env()
+    calls = []
+
+    def func(x, *a):
+        x = np.asarray(x, dtype=np.float64)
+        calls.append(x.copy())
+        return (np.float64(np.sum(x * x * x)), 3.0 * x * x)
+    fn = FuncWithGradsFunctor(cfg=E['cfg'], func=func, func_args=())
+    pts = [np.array([1.0, 2.0]), np.array([1.0, 2.0]), np.array([1.0 + 1e-9, 2.0]), np.array([np.nextafter(1.0, 2.0), 2.0]),
+           np.array([1.0, 2.0]), np.array([3.0, -1.0])]
+    for i, x in enumerate(pts):
+        fv = float(fn.get_f(x.copy())) if i % 2 == 0 else None
+        gv = np.array(fn.get_grads(x.copy()), dtype=np.float64)
+        fv = float(fn.get_f(x.copy())) if fv is None else fv
+        if fv != float(np.sum(x * x * x)) or not np.array_equal(gv, 3.0 * x * x):
+            ctx.violation('FuncWithGradsFunctor', 'stale-cache', f'values for x={x.tolist()!r} are not the function at x',
+                          case={'impl': 'iminuit-functor', 'x': x.tolist(), 'i': i}, impl=[fv, gv.tolist()],
+                          predicate='get_f(x), get_grads(x) == func(x)')
+            break
+    ctx.count('functor-probes')
+    ctx.case({'impl': 'iminuit-functor'})
+
+
 # ------------------------------------------------------------------ wrapper around oracle implementations
 def parse_wrap_out(line):
     w = line.split()
@@ -838,7 +1055,7 @@ def run_wrap_case(ctx, case, lines, checks):
             reevals.append(('R', x.copy(), float(f)))
         return (f, g)
     func_top = func
-    kw = {}
+    kw = dict(case.get('impl_kwargs') or {})
     with warnings.catch_warnings(), np.errstate(all='ignore'):
         warnings.simplefilter('ignore')
         try:
@@ -862,6 +1079,7 @@ def run_wrap_case(ctx, case, lines, checks):
         if last is None or last[0] != 'R' or not last[3]:
             ctx.violation(site, 'silent-non-convergence', 'a result was returned although the last run did not converge',
                           case=dict(case), impl=got, predicate='not converged => exception')
+        oracle_convergence(ctx, site, case, res[0], res[2], got)
         inb = all((b[0] <= float(v) <= b[1]) for v, b in zip(res[0], case['bounds']))
         if not inb:
             ctx.violation(site, 'optimum-out-of-bounds', f'reported optimum {list(map(float, res[0]))}', case=dict(case),
@@ -957,7 +1175,32 @@ def corpus_cases():
     flat2 = dict(flat, R0=[1.0], N=1, bounds=[[0.0, 1.0]], init=[0.0])
     lb = {'kind': 'interior', 'R0': [3.0, 0.5, 8.0, 1.5, 0.2], 'N': 30, 'impl': 'lbfgs', 'bounds': [[0.0, 20.0]],
           'init': [1.0], 'where': 'interior', 'max_reps': 100, 'seed': 7, 'valid': True}
-    return [('nr', flat), ('nr', flat2), ('wrap', lb)]
+    out = [('nr', flat), ('nr', flat2), ('wrap', lb)]
+    # audit: deterministic cases (detection must not depend on VERIF_SEED)
+    R0 = [6.0, 0.5, 9.0, 1.5, 0.2, 4.0, 0.8, 12.0]
+    base = {'kind': 'interior', 'R0': R0, 'N': 40, 'bounds': [[0.0, 30.0]], 'init': [0.5], 'where': 'interior',
+            'max_reps': 100, 'seed': 5, 'valid': True}
+    # (a) implementations stopped after one iteration: the raw status says failure, the wrapper must raise
+    out.append(('wrap', dict(base, impl='lbfgs', impl_kwargs={'maxiter': 1})))
+    for m in ('L-BFGS-B', 'SLSQP', 'TNC', 'Nelder-Mead'):
+        out.append(('wrap', dict(base, impl='scipy:' + m, impl_kwargs={'options': {'maxiter': 1}})))
+    # (b) the generic LLHRatio.maximize path with every oracle implementation
+    for name in ('lbfgs', 'scipy:L-BFGS-B', 'scipy:SLSQP', 'scipy:TNC', 'iminuit'):
+        out.append(('gen', dict(base, impl=name)))
+        out.append(('gen', dict(base, impl=name, bounds=[[0.0, 2.0]], where='upper')))
+        out.append(('gen', dict(base, impl=name, R0=[0.3, 0.5, 0.9], N=40, where='lower')))
+    # (c) ns is not the first global floating parameter
+    lay = {'kind': 'interior', 'R0': [3.0, 0.5, 8.0, 1.5, 0.2], 'R1': [0.3, 0.0, 0.5, 0.1, 0.0], 'N': 30,
+           'bounds': [[0.0, 1.0], [0.0, 20.0]], 'init': [0.5, 1.0], 'p2_step': 0.5, 'valid': True}
+    out.append(('layout', dict(lay, impl='nr1d')))
+    out.append(('layout', dict(lay, impl='nrscan2d')))
+    # (d) NR + scan with a NaN function value (finite derivatives) at the first / a middle / the last / all scan values
+    raw = {'kind': 'raw', 'impl': 'nrscan2d-raw', 'center': 3.0, 'bounds': [[0.0, 10.0], [0.0, 1.0]], 'init': [1.0, 0.5],
+           'p2_step': 0.25, 'ns_tol': 1e-3, 'max_steps': 100, 'N': 1, 'R0': [1.0], 'valid': True}
+    for nan_at in ([0.0], [0.5], [1.0], [0.0, 0.25], [0.0, 0.25, 0.5, 0.75, 1.0], []):
+        out.append(('scanraw', dict(raw, nan_at=nan_at)))
+    out.append(('scanraw', dict(raw, nan_at=[0.0], center=-2.0)))
+    return out
 
 
 # ------------------------------------------------------------------ run
@@ -972,6 +1215,12 @@ def run_cases(ctx, cases):
             run_nr_case(ctx, c, lines, checks)
         elif k == 'scan':
             run_scan_case(ctx, c, lines, checks)
+        elif k == 'gen':
+            run_gen_case(ctx, c, lines, checks)
+        elif k == 'layout':
+            run_layout_case(ctx, c, lines, checks)
+        elif k == 'scanraw':
+            run_scanraw_case(ctx, c, lines, checks)
         else:
             run_wrap_case(ctx, c, lines, checks)
     return lines, checks
@@ -999,9 +1248,12 @@ def run(ctx):
         cases.append(('scan', gen_scan_case(ctx, rng)))
     impls = [i for i in WRAP_IMPLS if not (i == 'iminuit' and E['RecMinuit'] is None)]
     for i in range(n_wrap):
-        cases.append(('wrap', gen_wrap_case(ctx, rng, impls[i % len(impls)])))
+        c = gen_wrap_case(ctx, rng, impls[i % len(impls)])
+        cases.append(('gen' if (i // len(impls)) % 2 == 0 and c['impl'] not in ('scipy:COBYLA', 'scipy:Nelder-Mead')
+                      else 'wrap', c))
     for _ in range(n_scr):
         cases.append(('wrap', gen_scripted_case(ctx, rng)))
+    functor_probes(ctx)
     lines, checks = run_cases(ctx, cases)
     for (k, c) in cases[3:6]:
         ctx.sample({'impl': c['impl'], 'kind': c.get('kind'), 'N': c['N'], 'n_selected': len(c['R0']),
@@ -1028,7 +1280,11 @@ def replay(ctx, rp):
     c.setdefault('valid', True)
     if 'script' in c:
         c['script'] = [tuple(s) for s in c['script']]
-    k = {'nr1d': 'nr', 'nrscan2d': 'scan'}.get(c['impl'], 'wrap')
+    k = {'nr1d': 'nr', 'nrscan2d': 'scan', 'nrscan2d-raw': 'scanraw'}.get(c['impl'], 'wrap')
+    if c['impl'] == 'iminuit-functor':
+        return functor_probes(ctx)
+    if c.get('kind') != 'raw' and len(c.get('bounds', [])) == 2 and c['bounds'][0][1] <= 1.0 and 'p2s' not in c and c.get('impl') in ('nr1d', 'nrscan2d') and 'where' not in c and 'ns_tol' not in c:
+        k = 'layout'
     c.setdefault('ns_tol', 1e-3)
     c.setdefault('max_steps', 100)
     c.setdefault('max_reps', 100)
